@@ -1,0 +1,28 @@
+//go:build verif
+
+// Verification hooks (build tag verif): call-outs of the buffer pool to an external sanitizer.
+package kcp
+
+const verifHooks = true
+
+// VerifPoolGetHook / VerifPoolPutHook are set by the verification harness; nil = no-op.
+// The Get hook sees the buffer about to be handed out, the Put hook the buffer about to be
+// recycled (only buffers the pool accepts reach it).
+var (
+	VerifPoolGetHook func(buf []byte)
+	VerifPoolPutHook func(buf []byte)
+)
+
+func verifPoolGet(bp *bufferPool) []byte {
+	buf := bp.xmitBuf.Get().([]byte)
+	if h := VerifPoolGetHook; h != nil {
+		h(buf)
+	}
+	return buf
+}
+
+func verifPoolPut(buf []byte) {
+	if h := VerifPoolPutHook; h != nil {
+		h(buf)
+	}
+}
